@@ -15,6 +15,9 @@ EXPIRE_MOD = PAA_MOD + [UCUR]
 c = contract("server_tap.makeService.<locals>.expire", cls=None, params={}, modifies=EXPIRE_MOD,
              tags=["C09", "C10", "C12", "C13", "C15", "C17"])
 c.free = {"server": "the_server", "rebooted": "real"}
+# an exception escaping `expire` stops the TimerService: that is about the sweeps continuing (C13) and about a
+# restarted server completing its sweeps (C10), not about what a sweep that does run deletes or answers
+c.no_exception_tags = ["C10", "C13"]
 
 
 @c.requires
@@ -85,6 +88,20 @@ def constants(src):
                    and isinstance(n.func.value, ast.Call) and ast.unparse(n.func.value.func) == "TimerService"
                    for n in ast.walk(fd))
     out.append(("census.timer_attached", attached, "TimerService(...).setServiceParent(parent)"))
+    # ... unconditionally: the statement is a direct child of makeService's body, `parent` is what makeService returns,
+    # and no return statement precedes it
+    top = [i for i, st in enumerate(fd.body) if isinstance(st, ast.Expr) and any(
+        isinstance(n, ast.Call) and ast.unparse(n.func) == "TimerService" for n in ast.walk(st))]
+    rets = [i for i, st in enumerate(fd.body) if any(isinstance(n, ast.Return) for n in ast.walk(st))
+            and not isinstance(st, (ast.FunctionDef, ast.ClassDef))]
+    parent_arg = [ast.unparse(n.args[0]) for st in fd.body for n in ast.walk(st)
+                  if isinstance(n, ast.Call) and isinstance(n.func, ast.Attribute) and n.func.attr == "setServiceParent"
+                  and isinstance(n.func.value, ast.Call) and ast.unparse(n.func.value.func) == "TimerService" and n.args]
+    last_ret = fd.body[-1].value if isinstance(fd.body[-1], ast.Return) else None
+    uncond = (len(top) == 1 and all(top[0] < r for r in rets) and last_ret is not None
+              and parent_arg == [ast.unparse(last_ret)])
+    out.append(("census.timer_unconditional", uncond,
+                "TimerService statement at top level of makeService, before any return, attached to the returned service"))
     # wiring of configuration into make_server (C16/C18): blur_usage, usage_db, allow_list passed through
     calls = [n for n in ast.walk(fd) if isinstance(n, ast.Call) and ast.unparse(n.func) == "make_server"]
     kw = {k.arg: ast.unparse(k.value) for k in calls[0].keywords} if len(calls) == 1 else {}
